@@ -12,7 +12,7 @@
    - proof operators (crypto/merkle/proof_op.go ProofRuntime.VerifyValue / VerifyAbsence) and the
      configured KeyPathFunc are the relations [verify_value], [verify_absence], [key_path].
 
-   Four repairs are modelled as present (see /verif/fixes):
+   Six repairs are modelled as present (see /verif/fixes):
    - F11: BlockResults compares NewResults(TxsResults).Hash() with the next header's
      LastResultsHash (the unrepaired code hashed begin/end-block events into it and refused
      every honest answer);
@@ -20,7 +20,14 @@
    - F36: BlockResults refuses an answer labelled with a height other than the one asked for;
    - F37: BlockchainInfo verifies every returned header through VerifyLightBlockAtHeight (the
      unrepaired code asked TrustedLightBlock and refused honest answers spanning heights the
-     light client had not stored). *)
+     light client had not stored);
+   - F42: TxSearch with prove = true verifies every returned transaction the way Tx does (the
+     unrepaired code handed the whole answer through);
+   - F44: Block / BlockByHash / BlockchainInfo compare the whole BlockID (hash AND part-set
+     header) with the BlockID of the commit in the verified light block (the unrepaired code
+     compared the hash only and relayed any part-set header).
+   Known, not repaired (F41): Tx / TxSearch bind ResultTx.Index only relative to the proof's
+   Total, which nothing the light client verified commits to. *)
 From Coq Require Import List ZArith NArith Bool.
 From TM Require Import Common.Hex Generated.Consts C10.Model.
 Import ListNotations.
@@ -40,8 +47,14 @@ Record header := {
   h_other : bytes            (* version, chain id, time, last block id, validator hashes, proposer *)
 }.
 
-(* types.LightBlock as the client uses it: header, commit (opaque), validators (opaque items) *)
-Record lblock := { lb_header : header; lb_commit : bytes; lb_vals : list bytes }.
+(* types.PartSetHeader *)
+Record psh := { ps_total : Z; ps_hash : bytes }.
+Definition psh_eqb (a b : psh) : bool := (ps_total a =? ps_total b) && bytes_eqb (ps_hash a) (ps_hash b).
+
+(* types.LightBlock as the client uses it: header, commit (opaque; [lb_id_hash] / [lb_id_parts] =
+   Commit.BlockID, what the validators signed), validators (opaque items) *)
+Record lblock := { lb_header : header; lb_commit : bytes; lb_id_hash : bytes; lb_id_parts : psh;
+                   lb_vals : list bytes }.
 
 (* light/rpc LightClient *)
 Record oracle := {
@@ -62,10 +75,10 @@ Record block := {
   b_ev_ok : bool; b_ev_hash : bytes
 }.
 (* ctypes.ResultBlock: [rb_id_ok] = BlockID.ValidateBasic *)
-Record rblock := { rb_id_ok : bool; rb_id_hash : bytes; rb_block : option block }.
+Record rblock := { rb_id_ok : bool; rb_id_hash : bytes; rb_id_parts : psh; rb_block : option block }.
 
 (* types.BlockMeta *)
-Record meta := { m_id_ok : bool; m_id_hash : bytes; m_header : header }.
+Record meta := { m_id_ok : bool; m_id_hash : bytes; m_id_parts : psh; m_header : header }.
 
 (* types.TxProof and ctypes.ResultTx *)
 Record txproof := { tp_root : bytes; tp_data : bytes; tp_proof : proof }.
@@ -172,8 +185,12 @@ Definition block_validate_basic (b : block) : bool :=
   else if negb (b_ev_ok b) then false
   else bytes_eqb (h_evidence_hash (b_header b)) (b_ev_hash b).
 
+(* types.BlockID.Equals against the BlockID of the verified commit *)
+Definition id_matches (l : lblock) (id_hash : bytes) (id_parts : psh) : bool :=
+  bytes_eqb id_hash (lb_id_hash l) && psh_eqb id_parts (lb_id_parts l).
+
 (* Client.Block and Client.BlockByHash (same body).  Result: the light-client calls made, and
-   whether the response was relayed (nil error). *)
+   whether the response was relayed (nil error).  The BlockID comparison is repair F44. *)
 Definition relay_block (o : oracle) (r : rblock) : list call * bool :=
   if negb (rb_id_ok r) then ([], false)
   else match rb_block r with
@@ -185,7 +202,10 @@ Definition relay_block (o : oracle) (r : rblock) : list call * bool :=
       let ht := h_height (b_header b) in
       match o_verify o ht with
       | None => ([CallVerify ht], false)
-      | Some l => ([CallVerify ht], bytes_eqb (hh (b_header b)) (hh (lb_header l)))
+      | Some l =>
+        ([CallVerify ht],
+         if negb (bytes_eqb (hh (b_header b)) (hh (lb_header l))) then false
+         else id_matches l (rb_id_hash r) (rb_id_parts r))                          (* fix F44 *)
       end
   end.
 
@@ -205,6 +225,7 @@ Fixpoint check_metas (o : oracle) (ms : list meta) : list call * bool :=
     | None => ([CallVerify ht], false)
     | Some l =>
       if bytes_eqb (hh (m_header m)) (hh (lb_header l))
+         && id_matches l (m_id_hash m) (m_id_parts m)                                (* fix F44 *)
       then let '(cs, ok) := check_metas o r in (CallVerify ht :: cs, ok)
       else ([CallVerify ht], false)
     end
@@ -266,6 +287,21 @@ Definition relay_tx (o : oracle) (r : rtx) : list call * bool :=
      else if negb (bytes_eqb (t_hash r) (H (t_tx r))) then false                   (* fix F18 *)
      else t_index r =? pf_index (tp_proof (t_proof r)))                            (* fix F18 *)
   end.
+
+(* Client.TxSearch (fix F42): with prove = true every returned transaction goes through the
+   checks of Tx, in order, stopping at the first that fails; a nil entry is refused.  prove =
+   false is handed through unverified. *)
+Fixpoint check_txs (o : oracle) (rs : list (option rtx)) : list call * bool :=
+  match rs with
+  | [] => ([], true)
+  | None :: _ => ([], false)
+  | Some r :: rest =>
+    let '(cs, ok) := relay_tx o r in
+    if ok then let '(cs', ok') := check_txs o rest in (cs ++ cs', ok') else (cs, false)
+  end.
+
+Definition relay_search (o : oracle) (prove : bool) (rs : list (option rtx)) : list call * bool :=
+  if prove then check_txs o rs else ([], true).
 
 (* Client.ABCIQueryWithOptions; [has_kpfn] = a KeyPathFn option was configured *)
 Definition relay_query (o : oracle) (has_kpfn : bool) (path : bytes) (r : rquery) : list call * bool :=
